@@ -29,6 +29,9 @@ CONFIGS = [
          log=[("f", ())], fmt=".6g", sep=",", ext=".txt", size=(1.0, 2.0, 0.5)),
     dict(grid=(3, 1, 1), vecs=[("p2", "point2"), ("c3", "cell3")], overwrite=True, scale=1.0,
          log=[("v", (4,))], fmt=".3e", sep="\t", ext=".tsv", size=(1.0, 1.0, 1.0)),
+    # logged 2-D arrays handed over in column-major memory (a transposed view, LAPACK output): same values, same names
+    dict(grid=(2, 2, 0), vecs=[("rho", "cell1")], overwrite=True, scale=1.0, log=[("A", (2, 3)), ("f", ()), ("B", (3, 2))], fmt=".6e", sep=";", ext=".txt",
+         size=(1.0, 1.0, 1.0), logorder="F"),
     # arrays larger than 64 KiB (more than 16384 single-precision values per array)
     dict(grid=(140, 120, 0), vecs=[("rho", "cell1"), ("T", "point1")], overwrite=True, scale=1.0, log=[("f", ())], fmt=".3e", sep=",", ext=".txt",
          size=(1.0, 1.0, 1.0), depth=2),
@@ -106,7 +109,7 @@ def replay(cfg, beh):
                         for v, (s, (t, sh)) in enumerate(zip(lsig, cfg["log"]), 1):
                             n = int(np.prod(sh)) if sh else 1
                             vals = np.array([datum(itl, v, j) for j in range(n)], dtype=float)
-                            s.state = float(vals[0]) if sh == () else vals.reshape(sh)
+                            s.state = float(vals[0]) if sh == () else (np.asfortranarray(vals.reshape(sh)) if cfg.get("logorder") == "F" else vals.reshape(sh))
                         wl.response()
                         itl += 1
             except Exception as e:
@@ -119,6 +122,13 @@ def replay(cfg, beh):
             for f, content in exp.items():
                 if f == "log":
                     got = decode_log(logpath, sep)
+                    if (got["header"] != content["header"] and sorted(got["header"]) == sorted(content["header"]) and got["header"][:1] == content["header"][:1]
+                            and len(set(got["header"])) == len(got["header"]) and all(len(r) == len(got["header"]) for r in got["rows"])):
+                        # the property fixes which value stands under which name, not the order of the columns of one array
+                        # (arrays in column-major memory are written in memory order): compare by column name
+                        perm = [got["header"].index(h) for h in content["header"]]
+                        got["rows"] = [[r[j] for j in perm] for r in got["rows"]]
+                        got["header"] = list(content["header"])
                     if got["header"] != content["header"]:
                         if sep.join(content["header"]).split(sep) == got["header"]:
                             # the right names were written, but a name contains the separator (index list of a 2-D signal in a csv file)
